@@ -119,10 +119,100 @@ func (r *Run) InTableAt(t Table, name, key string, info *types.Info, fd *ast.Fun
 	return "", false
 }
 
-// positionKey names what an expression written to the output is, by exported vocabulary: a field of a named type
+// positionKeys names what an expression written to the output is, by exported vocabulary: a field of a named type
 // (`alias.Name` → "position:TableAlias.Name"), or an element of such a field when the expression is the value variable
-// of a range over it (`for _, column := range insert.Shape.Columns` → "position:RecordShape.Columns[]"). "" otherwise.
-func positionKey(info *types.Info, fd *ast.FuncDecl, e ast.Expr) string {
+// of a range over it. The holder of the field is part of the name when it is itself a field
+// (`for _, column := range insert.Shape.Columns` → "position:Insert.Shape.Columns[]"): the same RecordShape type holds the
+// column constants of an INSERT and the column names of a CTE. When the holder is a parameter of fd, the name is taken
+// at every call of fd in the package (one key per distinct argument). Nil when the expression has no such name.
+func positionKeys(p *packages.Package, fd *ast.FuncDecl, e ast.Expr) []string {
+	info := p.TypesInfo
+	var fieldPath func(x ast.Expr, in *ast.FuncDecl, depth int) []string
+	fieldPath = func(x ast.Expr, in *ast.FuncDecl, depth int) []string {
+		sel, ok := ast.Unparen(x).(*ast.SelectorExpr)
+		if !ok {
+			return nil
+		}
+		s := info.Selections[sel]
+		if s == nil || s.Kind() != types.FieldVal {
+			return nil
+		}
+		owner := namedName(s.Recv())
+		if owner == "" {
+			return nil
+		}
+		// the holder is itself a field: name it instead of the type
+		if inner := fieldPath(sel.X, in, depth); len(inner) > 0 {
+			var out []string
+			for _, k := range inner {
+				out = append(out, k+"."+sel.Sel.Name)
+			}
+			return out
+		}
+		// the holder is a parameter: name it at the calls
+		if id, ok := ast.Unparen(sel.X).(*ast.Ident); ok && in != nil && depth < 2 {
+			if idx := paramIndexOf(info, in, info.Uses[id]); idx >= 0 {
+				self, _ := info.Defs[in.Name].(*types.Func)
+				seen := map[string]bool{}
+				var out []string
+				for _, f := range p.Syntax {
+					for _, d := range f.Decls {
+						caller, ok := d.(*ast.FuncDecl)
+						if !ok || caller.Body == nil {
+							continue
+						}
+						ast.Inspect(caller.Body, func(n ast.Node) bool {
+							call, ok := n.(*ast.CallExpr)
+							if !ok || idx >= len(call.Args) || self == nil || calleeOf(info, call) != self {
+								return true
+							}
+							for _, k := range fieldPath(call.Args[idx], caller, depth+1) {
+								k = k + "." + sel.Sel.Name
+								if !seen[k] {
+									seen[k] = true
+									out = append(out, k)
+								}
+							}
+							return true
+						})
+					}
+				}
+				if len(out) > 0 {
+					sort.Strings(out)
+					return out
+				}
+			}
+		}
+		return []string{owner + "." + sel.Sel.Name}
+	}
+	if ks := fieldPath(e, fd, 0); len(ks) > 0 {
+		for i := range ks {
+			ks[i] = "position:" + ks[i]
+		}
+		return ks
+	}
+	if id, ok := ast.Unparen(e).(*ast.Ident); ok && fd != nil {
+		obj := info.Uses[id]
+		var keys []string
+		ast.Inspect(fd.Body, func(n ast.Node) bool {
+			if rs, ok := n.(*ast.RangeStmt); ok {
+				if v, ok := rs.Value.(*ast.Ident); ok && info.Defs[v] == obj {
+					keys = nil
+					for _, k := range fieldPath(rs.X, fd, 0) {
+						keys = append(keys, "position:"+k+"[]")
+					}
+				}
+			}
+			return true
+		})
+		return keys
+	}
+	return nil
+}
+
+// positionTypeKey names the written expression by the type that declares the field only ("position:TableAlias.Name",
+// "position:RecordShape.Columns[]"): the key of an exemption that holds wherever a value of that type is held.
+func positionTypeKey(info *types.Info, fd *ast.FuncDecl, e ast.Expr) string {
 	fieldOf := func(x ast.Expr) string {
 		sel, ok := ast.Unparen(x).(*ast.SelectorExpr)
 		if !ok {
@@ -157,6 +247,27 @@ func positionKey(info *types.Info, fd *ast.FuncDecl, e ast.Expr) string {
 		return key
 	}
 	return ""
+}
+
+// paramIndexOf: the position of obj among fd's parameters, or -1.
+func paramIndexOf(info *types.Info, fd *ast.FuncDecl, obj types.Object) int {
+	if obj == nil || fd.Type.Params == nil {
+		return -1
+	}
+	n := 0
+	for _, f := range fd.Type.Params.List {
+		if len(f.Names) == 0 {
+			n++
+			continue
+		}
+		for _, nm := range f.Names {
+			if info.Defs[nm] == obj {
+				return n
+			}
+			n++
+		}
+	}
+	return -1
 }
 
 // viaKey names a private function by the exported functions of its package from which it is reachable through static
